@@ -35,3 +35,31 @@ def fast_group(build_packet, devices=()):
     (fd, args), = created
     return {"sg": sg, "insns": list(sg.opcodes), "var_fd": fd, "var_size": args[2],
             "off_wkc_errors": sg.__dict__["wkc_errors"]}
+
+
+def motor_group():
+    """real FastSyncGroup with one Motor linked to an EL7041-shaped terminal (no FMMU)"""
+    from ebpfcat.ebpfcat import FastSyncGroup, SyncManager
+    from ebpfcat.terminals import EL7041
+    from ebpfcat.devices import Motor
+    ec = _FakeEC()
+    t = EL7041(ec)
+    t.position = 5
+    t.pdos = {(0x7010, 0x21): (SyncManager.OUT, 2, 'H'), (0x7010, 1): (SyncManager.OUT, 0, 0),
+              (0x6010, 0xc): (SyncManager.IN, 1, 3), (0x6010, 0xd): (SyncManager.IN, 1, 4),
+              (0x6000, 0x11): (SyncManager.IN, 2, 'I')}
+    t.pdo_in_sz, t.pdo_out_sz, t.pdo_in_off, t.pdo_out_off = 6, 4, 0x1100, 0x1000
+    t.use_fmmu = False
+    m = Motor()
+    m.velocity, m.encoder = t.velocity, t.stepcounter
+    m.low_switch, m.high_switch, m.enable = t.low_switch, t.high_switch, t.enable
+    with fsim.fake_maps() as created:
+        sg = FastSyncGroup(ec, [m])
+        sg.allocate()
+        sg.assemble()
+    (fd, args), = created
+    offs = {k: m.__dict__[k] for k in ("set_enable", "max_velocity", "max_acceleration", "target", "proportional")}
+    pa = sg.pdo_assign[t]
+    return {"sg": sg, "insns": list(sg.opcodes), "var_fd": fd, "var_size": args[2],
+            "off_wkc_errors": sg.__dict__["wkc_errors"], "vars": offs,
+            "in_base": pa[SyncManager.IN] + 14, "out_base": pa[SyncManager.OUT] + 14, "size": sg.packet.size}
